@@ -7,12 +7,13 @@
                                 accept, through SpecLink.compare_op_total;
      respects l               - members of l that are == as Specifier objects match the same candidates; proved below for every list
                                 of constructor-built members (C05_respects_built, from the C03 main theorem and the C10 congruences);
-     reparses sp              - str(member) parses back to the member, is stripped and comma-free (parser completeness on the canonical
-                                layout is C12's; the comma exclusion is known finding D19).
+     reparses sp              - str(member) parses back to the member, is stripped and comma-free; proved below for every
+                                constructor-accepted specifier whose string has no comma (C05_member_reparses) - only '===' can carry one
+                                (C05_comma_only_in_arbitrary), which is known finding D19.
    This file holds statements only; proofs are in Sets/*.v. *)
 From Coq Require Import List Arith NArith Bool Lia Permutation.
 Import ListNotations.
-Require Import S1 VParse Py VMeaning SpecModel SpecParse Prefix SpecContains SortPerm SetModel SetsModel SetsBridge SetsFs SetsParse SetsLaws SetsLink SetsC10 SpecOps VKeyEq.
+Require Import S1 VParse Py VMeaning SpecModel SpecParse Prefix SpecContains SortPerm SetModel SetsModel SetsBridge SetsFs SetsParse SetsLaws SetsLink SetsC10 SetsReparse SpecOps VKeyEq.
 Open Scope N_scope.
 
 (* 0. the premise wf_member / wf_set holds for every specifier / set the constructors accept *)
@@ -157,6 +158,23 @@ Theorem C05_str_reparse S p : fs_ok (ms S) -> Forall (fun m => reparses (m_sp m)
   exists S', SpecifierSet (set_str S) p = Some S' /\ set_eqb S S' = true /\ ov S' = p /\ set_str S' = set_str S.
 Proof. exact (str_reparse S p). Qed.
 Print Assumptions C05_str_reparse.
+(* ... the premise holds for everything the constructor accepts, the comma apart; so: *)
+Theorem C05_member_reparses s sp : Specifier s = Some sp -> nochar 44 (spec_str sp) = true -> reparses sp.
+Proof. exact (built_reparses s sp). Qed.
+Print Assumptions C05_member_reparses.
+Theorem C05_comma_only_in_arbitrary s sp : Specifier s = Some sp -> sp_op sp <> OArb -> nochar 44 (spec_str sp) = true.
+Proof. exact (comma_only_in_arbitrary s sp). Qed.
+Print Assumptions C05_comma_only_in_arbitrary.
+(* sets of constructor-built Specifier objects: str() parses back to an equal set unless an '===' member's text contains a comma *)
+Theorem C05_str_reparse_objects S p : fs_ok (ms S) -> Forall built (ms S) -> Forall no_comma_arbitrary (ms S) ->
+  exists S', SpecifierSet (set_str S) p = Some S' /\ set_eqb S S' = true /\ ov S' = p /\ set_str S' = set_str S.
+Proof. exact (str_reparse_built S p). Qed.
+Print Assumptions C05_str_reparse_objects.
+(* sets built from a text: no exclusion at all (a piece between two commas contains no comma) *)
+Theorem C05_str_reparse_text s p S p' : SpecifierSet s p = Some S ->
+  exists S', SpecifierSet (set_str S) p' = Some S' /\ set_eqb S S' = true /\ ov S' = p' /\ set_str S' = set_str S.
+Proof. exact (str_reparse_text s p S p'). Qed.
+Print Assumptions C05_str_reparse_text.
 (* D19: for the member ===a,b the string form does not parse at all, so the exclusion in `reparses` is needed *)
 Theorem C05_str_reparse_refuted_D19 :
   Specifier [61;61;61;97;44;98] = Some d19_member /\
@@ -164,8 +182,7 @@ Theorem C05_str_reparse_refuted_D19 :
 Proof. split; [exact d19_is_a_specifier | exact str_reparse_refuted_D19]. Qed.
 Print Assumptions C05_str_reparse_refuted_D19.
 
-(* NOT PROVED here (covered by correspondence and the law.s.* cases only):
-   - `reparses sp` for every constructor-accepted comma-free specifier (C12 completeness of the specifier scanner on str(sp)). *)
+(* Every clause of C05 is proved for the model; what remains outside the theorems is the tie between model and code (correspondence). *)
 
 (* non-vacuity: ">=1.0" is a wf_member, " >=1.0 ,, <2 " parses to a two-member set that contains 1.5 and not 2.0,
    and its str() is "<2,>=1.0" *)
